@@ -63,9 +63,10 @@ func TestMain(m *testing.M) {
 }
 
 const (
-	maxInput      = 16 << 10 // bytes, main source and every module body (DESIGN §4 C04)
-	watchdog      = 10 * time.Second
-	watchdogRetry = 120 * time.Second
+	maxInput          = 16 << 10 // bytes, main source and every module body (DESIGN §4 C04)
+	watchdog          = 10 * time.Second
+	watchdogRetry     = 120 * time.Second
+	watchdogAfterHang = 3 * time.Second
 
 	mainNameBare   = "main.tengo" // file name given to the bare parser/compiler API
 	mainNameScript = "(main)"     // file name Script.Compile gives to its input
@@ -233,13 +234,24 @@ func guardOnce[T any](f func() T, limit time.Duration) (T, outcome) {
 // into an alarm, while a loop that never ends still is one. f must return
 // its results instead of writing to captured variables.
 func guard[T any](f func() T) (T, outcome) {
+	if hangConfirmed.Load() {
+		// a call that never returns has been found; its goroutine cannot be
+		// stopped and keeps a CPU (and possibly allocating) until the process
+		// exits: get through the remaining (shrinking) work quickly
+		return guardOnce(f, watchdogAfterHang)
+	}
 	v, o := guardOnce(f, watchdog)
 	if o.timeout {
 		ev.Note("watchdog expiry re-tried")
 		v, o = guardOnce(f, watchdogRetry)
+		if o.timeout {
+			hangConfirmed.Store(true)
+		}
 	}
 	return v, o
 }
+
+var hangConfirmed atomic.Bool
 
 var frameRe = regexp.MustCompile(`(?m)^(github\.com/d5/tengo/v2[^\s(]*(?:\(\*[A-Za-z]+\))?[^\s(]*)\(`)
 
@@ -927,8 +939,21 @@ func outcomeClasses(cls []string) []string {
 
 // ---------- rapid properties ----------
 
+// setupCase is the input (if any) on which set-up met a scanner/parser that
+// hangs; it is evaluated before anything else.
+func setupCase() *tcase {
+	loadCorpus()
+	if setupDefect == nil {
+		return nil
+	}
+	return &tcase{src: setupDefect, modules: "none", origin: "corpus-or-constant-unmodified", base: string(setupDefect)}
+}
+
 func TestMutatedPrograms(t *testing.T) {
 	rapid.Check(t, func(t *rapid.T) {
+		if c := setupCase(); c != nil {
+			report(t, "TestMutatedPrograms", c, evaluate(c, true))
+		}
 		c := drawMutatedCase(t)
 		report(t, "TestMutatedPrograms", c, evaluate(c, true))
 	})
@@ -936,6 +961,9 @@ func TestMutatedPrograms(t *testing.T) {
 
 func TestRawBytes(t *testing.T) {
 	rapid.Check(t, func(t *rapid.T) {
+		if c := setupCase(); c != nil {
+			report(t, "TestRawBytes", c, evaluate(c, true))
+		}
 		c := drawRawCase(t)
 		report(t, "TestRawBytes", c, evaluate(c, true))
 	})
@@ -943,6 +971,9 @@ func TestRawBytes(t *testing.T) {
 
 func TestHostileShapes(t *testing.T) {
 	rapid.Check(t, func(t *rapid.T) {
+		if c := setupCase(); c != nil {
+			report(t, "TestHostileShapes", c, evaluate(c, true))
+		}
 		c := drawHostileCase(t)
 		report(t, "TestHostileShapes", c, evaluate(c, true))
 	})
@@ -982,6 +1013,9 @@ func FuzzCompile(f *testing.F) {
 	for i, s := range hostileConstants() {
 		f.Add([]byte(s), []byte(s), uint16(i%8|((i%7)<<3)))
 		f.Add([]byte(`m := import("m1"); out := m`), []byte(s), uint16(2|(i%2)<<2))
+	}
+	if c := setupCase(); c != nil {
+		report(f, "FuzzCompile", c, evaluate(c, true))
 	}
 	f.Fuzz(func(t *testing.T, src, mod []byte, cfg uint16) {
 		if len(src) > maxInput || len(mod) > maxInput {
@@ -1106,6 +1140,9 @@ var _ = json.Marshal
 // TestCorpusAndConstants runs every corpus snippet and every hostile constant
 // unmodified through the oracle under a fixed rotation of configurations.
 func TestCorpusAndConstants(t *testing.T) {
+	if c := setupCase(); c != nil {
+		report(t, "TestMutatedPrograms", c, evaluate(c, true))
+	}
 	inputs := append(append([]string(nil), corpusSnippets()...), hostileConstants()...)
 	modBody := []byte("x := 5\nexport {x: x, f: func(a) { return a + x }}")
 	for i, s := range inputs {
